@@ -19,9 +19,13 @@ import (
 	"sync"
 	"time"
 
+	"mosn.io/api"
 	v2 "mosn.io/mosn/pkg/config/v2"
 	"mosn.io/mosn/pkg/metrics"
+	"mosn.io/mosn/pkg/protocol/xprotocol"
+	"mosn.io/mosn/pkg/protocol/xprotocol/bolt"
 	"mosn.io/mosn/pkg/server"
+	xstream "mosn.io/mosn/pkg/stream/xprotocol"
 	"verif/e2e"
 	"verif/vh"
 )
@@ -38,6 +42,12 @@ type scase struct {
 	Mode  string              `json:"mode"` // complete | hang
 	Sig   string              `json:"sig"`  // proc mode: term | hup
 	Conns map[string]connCase `json:"conns"`
+}
+
+func init() {
+	// what cmd/mosn/main/control.go does for the xprotocol family
+	xprotocol.RegisterXProtocolAction(xstream.NewConnPool, xstream.NewStreamFactory, func(codec api.XProtocolCodec) {})
+	_ = xprotocol.RegisterXProtocolCodec(&bolt.XCodec{})
 }
 
 var phaseOrder = map[string]int{"idle": 0, "hdr": 1, "body": 2, "wait": 3, "resp": 4}
@@ -57,6 +67,20 @@ func newBus() *bus {
 }
 func (b *bus) post(k string) { b.mu.Lock(); b.cnt[k]++; b.cond.Broadcast(); b.mu.Unlock() }
 func (b *bus) reset()        { b.mu.Lock(); b.cnt = map[string]int{}; b.mu.Unlock() }
+func (b *bus) waitCount(d time.Duration, key string, n int) bool {
+	dl := time.Now().Add(d)
+	t := time.AfterFunc(d, func() { b.mu.Lock(); b.cond.Broadcast(); b.mu.Unlock() })
+	defer t.Stop()
+	b.mu.Lock()
+	defer b.mu.Unlock()
+	for b.cnt[key] < n {
+		if time.Now().After(dl) {
+			return false
+		}
+		b.cond.Wait()
+	}
+	return true
+}
 func (b *bus) waitAny(d time.Duration, keys ...string) string {
 	dl := time.Now().Add(d)
 	t := time.AfterFunc(d, func() { b.mu.Lock(); b.cond.Broadcast(); b.mu.Unlock() })
@@ -88,6 +112,23 @@ func num(x interface{}) int64 {
 		return int64(v)
 	}
 	return -1
+}
+
+// ttrace stamps every event with the milliseconds since the start of the run (information only).
+type ttrace struct {
+	*vh.Trace
+	mu sync.Mutex
+	t0 time.Time
+}
+
+func (t *ttrace) Emit(e vh.Ev) int {
+	t.mu.Lock()
+	if e["ev"] == "run" {
+		t.t0 = time.Now()
+	}
+	e["t"] = time.Since(t.t0).Milliseconds()
+	t.mu.Unlock()
+	return t.Trace.Emit(e)
 }
 
 // ---------------------------------------------------------------- in-process
@@ -145,7 +186,7 @@ func main() {
 		vh.Must(e2e.WaitListen(li.addr, 10*time.Second), "mosn listener "+li.name)
 	}
 
-	tr := vh.NewTrace(*out)
+	tr := &ttrace{Trace: vh.NewTrace(*out), t0: time.Now()}
 	defer tr.Close()
 	rs := vh.NewOut(*res)
 	defer rs.Close()
@@ -184,6 +225,7 @@ func main() {
 			}
 		case "ds.clean":
 			tr.Emit(vh.Ev{"ev": "clean", "rid": num(kv[0])})
+			evb.post("clean")
 		}
 	})
 	defer vh.Sink(nil)
@@ -247,19 +289,22 @@ func main() {
 		}
 		conns := map[string]*live{}
 		fail := func(what string, err error) {
+			tr.Close()
+			rs.Close()
 			vh.Must(fmt.Errorf("case %d %s: %v", c.ID, what, err), "set-up of the signal point")
 		}
-		// advance the current request of connection n from phase `from` (exclusive) to phase `to` (inclusive)
+		// advance the current request of connection n, one phase at a time, until it is in phase `to`
+		// ("idle" = response completely read and verified); every phase reached is recorded
 		advance := func(n string, to string) (bool, string) {
 			lv := conns[n]
-			for phaseOrder[lv.ph] < phaseOrder[to] || (to == "idle" && lv.ph != "idle") {
+			for lv.ph != to {
 				switch lv.ph {
 				case "idle":
 					lv.k++
 					lv.tok = fmt.Sprintf("s%d-%d-%s-%d", *shard, c.ID, n, lv.k)
 					size := smallResp
 					if c.Conns[n].Ph == "resp" && lv.k == c.Conns[n].Done+1 {
-						size = bigResp
+						size = lv.cl.BigSize()
 					}
 					if err := lv.cl.Hdr(lv.tok, size); err != nil {
 						return false, "write headers: " + short(err)
@@ -295,12 +340,7 @@ func main() {
 					lv.ph = "idle"
 					return ok, d
 				}
-				if lv.ph != "idle" {
-					tr.Emit(vh.Ev{"ev": "c.phase", "c": n, "k": lv.k, "ph": lv.ph})
-				}
-				if lv.ph == to {
-					break
-				}
+				tr.Emit(vh.Ev{"ev": "c.phase", "c": n, "k": lv.k, "ph": lv.ph})
 			}
 			return true, ""
 		}
@@ -326,8 +366,14 @@ func main() {
 			}
 		}
 
+		// the signal point is a settled state: the streams of the requests completed so far have ended on the server
+		completed := 0
+		for _, n := range names {
+			completed += c.Conns[n].Done
+		}
+		settled := evb.waitCount(10*time.Second, "clean", completed)
 		// ---- the signal
-		tr.Emit(vh.Ev{"ev": "signal"})
+		tr.Emit(vh.Ev{"ev": "signal", "settled": settled})
 		t0 := time.Now()
 		exitCh := make(chan struct{})
 		go func() {
